@@ -84,10 +84,12 @@ def stream(tier):
             res.violation("framing:reader-died", "reader loop raised %r" % (srv.exc,), {"chunks": chunks})
         res.nontrivial.add(tuple(chunks))
     for si in range(nstreams):
-        lines = gen_stream(R, R.choice([1, 2, 3]) if maxcuts == 3 else R.choice([2, 3, 4]))
-        # keep exhaustive enumeration affordable: streams of at most ~70 bytes for 3 cuts
-        while maxcuts == 3 and len("".join(lines)) > 70:
-            lines = gen_stream(R, R.choice([1, 2]))
+        if maxcuts == 3:
+            # exhaustive 3-cut enumeration: 3-5 short request lines (40-75 bytes), both terminators mixed
+            lines = ["%s|%s|S|%s%s" % (R.choice(["a1", "7", "10c3"]), R.choice(["SUB", "USB", "NSC", "GIT"]), R.choice(["i1", "x+y", "%7C", "$"]),
+                                        R.choice(["\r\n", "\n"])) for _ in range(R.choice([3, 4, 5]))]
+        else:
+            lines = gen_stream(R, R.choice([2, 3, 4]))
         s = "".join(lines)
         for seg in segmentations(s, maxcuts):
             one(seg, lines)
